@@ -72,6 +72,15 @@ func genRTStack(r *rand.Rand, depth int) V {
 			st.Xs = append(st.Xs, genPrim(r))
 		}
 	}
+	if r.Intn(6) == 0 {
+		// the same sub-stack once more, inside a sibling: built as ONE shared instance by the runner
+		for _, x := range st.Xs {
+			if x.T == 'K' {
+				st.Xs = append(st.Xs, V{T: 'K', Form: "n", Cfg: Cfg{Kind: 3}, Xs: []V{x, {T: 'i', I: 5}}})
+				break
+			}
+		}
+	}
 	if r.Intn(8) == 0 {
 		c.Cap = len(st.Xs) + r.Intn(3)
 		if c.Cap == 0 {
@@ -120,7 +129,9 @@ func lowerLabels(x any) any {
 func runRoundtrip(payload string) string {
 	t := strings.Fields(payload)
 	v, _ := parseV(t[1:])
+	shareCache = map[string]stackage.Stack{}
 	s := BuildStack(v)
+	shareCache = nil
 	u, uerr := s.Unmarshal()
 	var z stackage.Stack
 	var merr error
